@@ -163,6 +163,16 @@ an `AF_INET[6]` socket. Unix UDP sockets and Windows named pipes are not support
 "#
 );
 
+/// Parse a pre-shared key (`--ws-psk`, client and server).
+///
+/// The key travels in an HTTP header field, and leading and trailing spaces
+/// and tabs are not part of a field value (RFC 9110, section 5.5): the server
+/// never sees them. A key given with such padding could therefore never match,
+/// so the padding is removed here, on both sides.
+fn parse_ws_psk(s: &str) -> Result<HeaderValue, http::header::InvalidHeaderValue> {
+    HeaderValue::from_str(s.trim_matches([' ', '\t']))
+}
+
 /// Penguin client arguments.
 #[expect(clippy::doc_markdown, clippy::pub_underscore_fields)]
 #[cfg(feature = "client")]
@@ -179,8 +189,8 @@ pub struct ClientArgs {
     /// An optional Pre-Shared Key for WebSocket upgrade to present
     /// to the server in the HTTP header X-Penguin-PSK. If the server requires
     /// this key but the client does not present the correct key, the upgrade
-    /// to WebSocket silently fails.
-    #[arg(long)]
+    /// to WebSocket silently fails. Leading and trailing blanks are ignored.
+    #[arg(long, value_parser = parse_ws_psk)]
     pub ws_psk: Option<HeaderValue>,
     /// An optional keepalive interval. Since the underlying
     /// transport is HTTP, in many instances we'll be traversing through
@@ -301,7 +311,8 @@ pub struct ServerArgs {
     /// An optional Pre-Shared Key for WebSocket upgrade. If this
     /// option is supplied but the client does not present the correct key
     /// in the HTTP header X-Penguin-PSK, the upgrade to WebSocket silently fails.
-    #[arg(long)]
+    /// Leading and trailing blanks are ignored.
+    #[arg(long, value_parser = parse_ws_psk)]
     pub ws_psk: Option<HeaderValue>,
     /// Allow clients to specify reverse port forwarding remotes in addition to
     /// normal remotes.
